@@ -460,6 +460,10 @@ class CryptographyEngine(api.CryptographicEngine):
                 "Invalid key bytes for the specified encryption algorithm."
             )
 
+        if encryption_algorithm == enums.CryptographicAlgorithm.RC4:
+            # A stream cipher has no block cipher mode and takes no padding.
+            cipher_mode = None
+
         is_gcm_mode = cipher_mode == enums.BlockCipherMode.GCM
         if not is_gcm_mode and auth_additional_data is not None:
             raise exceptions.InvalidField(
@@ -491,10 +495,20 @@ class CryptographyEngine(api.CryptographicEngine):
                 if iv_nonce is None:
                     iv_nonce = os.urandom(algorithm.block_size // 8)
                     return_iv_nonce = True
-                if is_gcm_mode:
-                    mode = mode(iv_nonce, None, min_tag_length=auth_tag_length)
-                else:
-                    mode = mode(iv_nonce)
+                try:
+                    if is_gcm_mode:
+                        mode = mode(
+                            iv_nonce,
+                            None,
+                            min_tag_length=auth_tag_length
+                        )
+                    else:
+                        mode = mode(iv_nonce)
+                except Exception as e:
+                    raise exceptions.InvalidField(
+                        "The cipher mode cannot be used with the specified "
+                        "IV/nonce and tag length: {0}".format(e)
+                    )
             else:
                 mode = mode()
 
@@ -522,9 +536,15 @@ class CryptographyEngine(api.CryptographicEngine):
                 "The cipher cannot be used with the specified mode and "
                 "IV/nonce: {0}".format(e)
             )
-        if auth_additional_data is not None:
-            encryptor.authenticate_additional_data(auth_additional_data)
-        cipher_text = encryptor.update(plain_text) + encryptor.finalize()
+        try:
+            if auth_additional_data is not None:
+                encryptor.authenticate_additional_data(auth_additional_data)
+            cipher_text = encryptor.update(plain_text) + encryptor.finalize()
+        except ValueError as e:
+            raise exceptions.InvalidField(
+                "The data cannot be encrypted with the specified "
+                "parameters: {0}".format(e)
+            )
 
         result = {'cipher_text': cipher_text}
         if return_iv_nonce:
@@ -640,8 +660,13 @@ class CryptographyEngine(api.CryptographicEngine):
                 padder = padding_method(algorithm.block_size).unpadder()
             else:
                 padder = padding_method(algorithm.block_size).padder()
-            plain_text = padder.update(plain_text)
-            plain_text += padder.finalize()
+            try:
+                plain_text = padder.update(plain_text)
+                plain_text += padder.finalize()
+            except ValueError:
+                raise exceptions.CryptographicFailure(
+                    "The padding of the decrypted data is not valid."
+                )
         else:
             if padding_method is None:
                 raise exceptions.InvalidField(
@@ -818,6 +843,10 @@ class CryptographyEngine(api.CryptographicEngine):
                 "Invalid key bytes for the specified decryption algorithm."
             )
 
+        if decryption_algorithm == enums.CryptographicAlgorithm.RC4:
+            # A stream cipher has no block cipher mode and takes no padding.
+            cipher_mode = None
+
         is_gcm_mode = cipher_mode == enums.BlockCipherMode.GCM
         if auth_additional_data is not None and not is_gcm_mode:
             raise exceptions.InvalidField(
@@ -847,14 +876,20 @@ class CryptographyEngine(api.CryptographicEngine):
                     raise exceptions.InvalidField(
                         "IV/nonce is required."
                     )
-                if is_gcm_mode:
-                    mode = mode(
-                        iv_nonce,
-                        tag=auth_tag,
-                        min_tag_length=len(auth_tag)
+                try:
+                    if is_gcm_mode:
+                        mode = mode(
+                            iv_nonce,
+                            tag=auth_tag,
+                            min_tag_length=len(auth_tag)
+                        )
+                    else:
+                        mode = mode(iv_nonce)
+                except Exception as e:
+                    raise exceptions.InvalidField(
+                        "The cipher mode cannot be used with the specified "
+                        "IV/nonce and tag: {0}".format(e)
                     )
-                else:
-                    mode = mode(iv_nonce)
             else:
                 mode = mode()
 
@@ -871,13 +906,18 @@ class CryptographyEngine(api.CryptographicEngine):
                 "The cipher cannot be used with the specified mode and "
                 "IV/nonce: {0}".format(e)
             )
-        if auth_additional_data is not None:
-            decryptor.authenticate_additional_data(auth_additional_data)
         try:
+            if auth_additional_data is not None:
+                decryptor.authenticate_additional_data(auth_additional_data)
             plain_text = decryptor.update(cipher_text) + decryptor.finalize()
         except errors.InvalidTag:
             raise exceptions.CryptographicFailure(
                 "The authentication tag does not match the cipher text."
+            )
+        except ValueError as e:
+            raise exceptions.InvalidField(
+                "The cipher text cannot be decrypted with the specified "
+                "parameters: {0}".format(e)
             )
 
         # Unpad the plain text if needed (separate methods for testing
